@@ -110,8 +110,10 @@ class Sched:
     if t.status == 'run':
       return True
     if t.status == 'blocked':
-      if t.wake is not None:
-        return self.clock >= t.wake
+      if t.wake is not None and self.clock >= t.wake:
+        return True
+      if t.pred is None:
+        return False
       try:
         return bool(t.pred())
       except Exception:
@@ -301,13 +303,14 @@ class Sched:
     me = self.me()
     if me is None:
       # an unmanaged thread: poll for real (never a verdict)
-      while not (pred() if wake is None else self.clock >= wake):
+      while not ((pred is not None and pred()) or (wake is not None and self.clock >= wake)):
         _real_sleep(0.0005)
       return
     while True:
       if self.aborting and me is not self.main:
         raise Abort()
-      if (wake is None and pred()) or (wake is not None and self.clock >= wake):
+      # ready when the predicate holds, or - for a timed wait - when the virtual deadline has passed
+      if (pred is not None and pred()) or (wake is not None and self.clock >= wake):
         break
       me.status, me.pred, me.desc, me.wake = 'blocked', pred, desc, wake
       nxt = self.choose(me, False)
@@ -633,7 +636,13 @@ class SLock:
         self.owner = me or True
         return True
       return False
-    S.wait_until(lambda: self.owner is None, 'Lock.acquire')
+    if timeout is not None and timeout >= 0:
+      # a timed wait: in VIRTUAL time (returns False when the deadline passes first, as threading.Lock does)
+      S.wait_until(lambda: self.owner is None, 'Lock.acquire(timeout)', wake=S.clock + timeout)
+      if self.owner is not None:
+        return False
+    else:
+      S.wait_until(lambda: self.owner is None, 'Lock.acquire')
     self.owner = me or True
     return True
 
@@ -670,7 +679,12 @@ class SRLock:
         self.owner, self.count = me, 1
         return True
       return False
-    S.wait_until(lambda: self.owner is None, 'RLock.acquire')
+    if timeout is not None and timeout >= 0:
+      S.wait_until(lambda: self.owner is None, 'RLock.acquire(timeout)', wake=S.clock + timeout)
+      if self.owner is not None:
+        return False
+    else:
+      S.wait_until(lambda: self.owner is None, 'RLock.acquire')
     self.owner, self.count = me, 1
     return True
 
